@@ -40,6 +40,14 @@ def main():
     try:
         patch = os.path.join(src, 'patch.diff')
         demo = os.path.join(src, 'demo.py')
+        # some demonstrations hard-code their author's worktree path: point them at this scratch tree
+        import re as _re
+        text = open(demo).read()
+        text2 = _re.sub(r'/tmp/wt2?-C\d\d', wt, text)
+        if text2 != text:
+            demo = os.path.join(wt, '_seeded_demo.py')
+            with open(demo, 'w') as f:
+                f.write(text2)
         rc, o = sh(['git', '-C', wt, 'apply', '--3way', patch])
         if rc:
             rc, o = sh(['git', '-C', wt, 'apply', patch])
@@ -78,7 +86,7 @@ def main():
             dst = os.path.join(VERIF, 'seeded', name)
             os.makedirs(dst, exist_ok=True)
             shutil.copy(patch, os.path.join(dst, 'patch.diff'))
-            shutil.copy(demo, os.path.join(dst, 'demo.py'))
+            shutil.copy(os.path.join(src, 'demo.py'), os.path.join(dst, 'demo.py'))
             meta = {}
             try:
                 meta = json.load(open(os.path.join(src, 'meta.json')))
